@@ -109,7 +109,11 @@ def _fits(it, thunk):
     n0 = len(sp.obligations)
     try:
         val = thunk()
-    except (TypeViolation, Unmodelled):
+    except Unmodelled as u:
+        del sp.obligations[n0:]
+        it.layout_unmodelled = str(u)        # the recursion could not be evaluated at all: not a question of axis order
+        return None
+    except TypeViolation:
         del sp.obligations[n0:]
         return None
     bad = [ob for ob in sp.obligations[n0:] if not ob["ok"] and ob["a"] != ob["b"]]
@@ -121,9 +125,12 @@ def infer_layout(it, nax, call_with, what):
     """The axis order in which an interface array is kept is the code's own choice (any consistent order is correct).  It is
     read off the forward recursion: the one permutation of the canonical axes (row rank, operator rank, column rank) under
     which the recursion makes no identification of two independent sizes."""
+    it.layout_unmodelled = None
     for perm in itertools.permutations(range(nax)):
         if _fits(it, lambda: call_with(perm)) is not None:
             return perm
+    if getattr(it, "layout_unmodelled", None):
+        raise Unmodelled(f"{what}: the interface recursion leaves the modelled fragment ({it.layout_unmodelled})")
     raise TypeViolation(f"{what}: under no axis order of the incoming interface does the recursion contract matching sizes only "
                         "(each axis of the interface must meet the like-named bond of exactly one core)")
 
